@@ -2,5 +2,5 @@
 # evaluate seeded changes: target check (+demo +tests) only. usage: tools/eval_seeded.sh <id>...
 for id in "$@"; do
   prop=${id%%-*}
-  tools/eval_mutant.py "$id" seeded/$id/patch.diff --checks $prop --jobs 1 --workers 12 --demo seeded/$id/demo.py --tests
+  tools/eval_mutant.py "$id" seeded/$id/patch.diff --checks $prop --jobs 1 --workers 8 --demo seeded/$id/demo.py --tests
 done
